@@ -58,9 +58,19 @@ def build_harness(race=False):
     Returns the path of the binary (inside a scratch dir of this invocation)."""
     out = os.path.join(scratch("verif-bin-"), "drive-race" if race else "drive")
     gosum = os.path.join(REPO, "go.sum")
-    if os.path.exists(gosum):
-        shutil.copy(gosum, os.path.join(HARNESS, "go.sum"))
     cmd = ["go", "build", "-tags", "verif", "-o", out]
+    if os.path.realpath(REPO) != "/repo":
+        # development aid (mutation testing against a scratch copy of the repository):
+        # same module file with the replace directive pointed at VERIF_REPO
+        md = scratch("verif-mod-")
+        mod = open(os.path.join(HARNESS, "go.mod")).read().replace("=> /repo", "=> " + os.path.realpath(REPO))
+        with open(os.path.join(md, "go.mod"), "w") as fh:
+            fh.write(mod)
+        if os.path.exists(gosum):
+            shutil.copy(gosum, os.path.join(md, "go.sum"))
+        cmd += ["-modfile", os.path.join(md, "go.mod")]
+    elif os.path.exists(gosum):
+        shutil.copy(gosum, os.path.join(HARNESS, "go.sum"))
     env = dict(GOENV)
     if race:
         cmd.insert(2, "-race")
